@@ -123,7 +123,7 @@ package limit
 //@   ensures calls(pl.TakeCtx) == 1 && arg(pl.TakeCtx, 2) == key && result0 == ret(TakeCtx, 0) && result1 == ret(TakeCtx, 1)
 //@ func NewPeriodLimit
 //@   prop C08
-//@   loop 1 invariant -1 <= rangeindex
+//@   loop 1 invariant -1 <= rangeindex && rangeindex < len(opts) && limiter != nil && (rangeindex == -1 ==> limiter.period == period && limiter.quota == quota && limiter.limitStore == limitStore && limiter.keyPrefix == keyPrefix && !limiter.align)
 //@   ensures [no-options-plain-fields] len(opts) == 0 ==> result != nil && result.period == period && result.quota == quota && result.limitStore == limitStore && result.keyPrefix == keyPrefix && !result.align
 //@ func Align$1
 //@   prop C08
